@@ -418,7 +418,11 @@ func GenRecords(s *dremel.Schema, kind GenKind, n int, rng *rand.Rand, thorough 
 		for i := 0; i < n; i++ {
 			hc := &hugeChooser{r: rng}
 			big := false
-			out = append(out, genTree(s, hc, extremeVals{r: rng, longStr: true, usedBig: &big}, []int{0, 1, 16384 + rng.Intn(3)}))
+			long := 16384 + rng.Intn(3)
+			if rng.Intn(2) == 0 {
+				long = 65535 + rng.Intn(3) // beyond 16-bit counters
+			}
+			out = append(out, genTree(s, hc, extremeVals{r: rng, longStr: true, usedBig: &big}, []int{0, 1, long}))
 		}
 	}
 	return out
